@@ -168,8 +168,10 @@ class Interp:
             self.ctx.assume(n >= 0)
             return SymSeq(z3.simplify(acc_arr(t)), n, kind.inner)
         if kind.ty == 'pair':
-            ts, mk_, (a0, a1) = pair_sort(kind.inner[0].sort(), kind.inner[1].sort())
-            return (self.wrap(z3.simplify(a0(t)), kind.inner[0]), self.wrap(z3.simplify(a1(t)), kind.inner[1]))
+            ts, mk_, accs = pair_sort(*[k.sort() for k in kind.inner])
+            return tuple(self.wrap(z3.simplify(a(t)), k) for a, k in zip(accs, kind.inner))
+        if kind.ty == 'custom':
+            return kind.inner[1](self, t)
         if kind.ty == 'box':
             for ref, val in self.state.boxes:
                 if ref.eq(t):
@@ -219,8 +221,10 @@ class Interp:
                 return mk_(arr, z3.IntVal(len(v.items)))
             raise Unsupported('storing %r as a list value' % (v,))
         if kind.ty == 'pair':
-            ts, mk_, (a0, a1) = pair_sort(kind.inner[0].sort(), kind.inner[1].sort())
-            return mk_(self.unwrap(v[0], kind.inner[0]), self.unwrap(v[1], kind.inner[1]))
+            ts, mk_, accs = pair_sort(*[k.sort() for k in kind.inner])
+            return mk_(*[self.unwrap(x, k) for x, k in zip(v, kind.inner)])
+        if kind.ty == 'custom':
+            return kind.inner[2](self, v)
         if kind.ty == 'box':
             if isinstance(v, Box):
                 return v.ref
@@ -236,7 +240,9 @@ class Interp:
                 return self.heapify(v).ref
             raise Unsupported('storing a non-object into a symbolic collection of objects')
         if kind.ty == 'enum':
-            return ops.term(v.attrs['value'], 'int')
+            if isinstance(v, Obj):
+                return ops.term(v.attrs['value'], 'int')
+            return ops.term(v, 'int')      # a plain int where an enum member is expected (received messages carry retry=0)
         return ops.term(v, kind.ty if kind.ty in ('int', 'real') else None)
 
     def heapify(self, o):
@@ -496,6 +502,10 @@ class Interp:
         r = ops.truth_basic(v)
         if r is not NotImplemented:
             return r
+        if hasattr(v, 'pv_truth'):
+            return v.pv_truth(self)
+        if any(hasattr(v, a) for a in ('pv_getattr', 'pv_call', 'pv_key', 'pv_type')):
+            return True           # an object of a class without __bool__/__len__
         if isinstance(v, (Obj, SymObj)):
             cls = v.cls
             if cls is not None:
@@ -924,6 +934,10 @@ class Interp:
             self.contract_log.add(info.qualname)
             return modular.apply_contract(self, self.contracts[info.qualname], info, args, kwargs)
         model = self.lib.function_model(info.qualname)
+        if model is None and info.qualname != self.verifying:
+            model = self.hooks.get('model:' + info.qualname)
+            if model is not None:
+                self.ctx.lib_used.add('assumed model of %s supplied by the contract of %s' % (info.qualname, self.verifying))
         if model is not None and not force_body:
             return model(self, *args, **kwargs)
         if info.qualname != self.verifying:
